@@ -113,8 +113,12 @@ QosSpec == QosInit /\ [][QosNext]_vars
 Q2Open == {sess[k1].p2in[i].id : i \in 1..Len(sess[k1].p2in)}
 Q2ManyNext == steps < MaxSteps /\
   \/ QosConn
-  \/ \E n \in 1..3 : \E id \in {i \in 1..40 : i \notin Q2Open /\ (\A j \in 1..40 : j \notin Q2Open => i <= j)} :
+  \* identifiers are taken round-robin (the next free one after the last step's number), as a client with a counter does:
+  \* an identifier comes back only after many others, long after the queue's ring has gone round
+  \/ \E n \in 1..3 : \E id \in {i \in 1..40 : i \notin Q2Open /\ i = ((steps * 7) % 40) + 1} :
         Publish2(c1, <<"a">>, FALSE, IF id % 2 = 0 THEN "x" ELSE "y", id, FALSE)
+  \* a PUBREL repeated for an exchange that is complete (its PUBCOMP was lost): answered again, nothing else happens
+  \/ \E id \in {i \in 1..40 : i \notin Q2Open /\ i = ((steps * 11) % 40) + 1} : Pubrel(c1, id)
   \/ (sess[k1].p2in # <<>> /\ Pubrel(c1, Head(sess[k1].p2in).id))
   \/ (Len(sess[k1].p2in) > 1 /\ Pubrel(c1, sess[k1].p2in[Len(sess[k1].p2in)].id))
 Q2ManyFinish == steps = MaxSteps /\ steps' = steps + 1 /\ UNCHANGED <<conn, sess, subs, ret, out, closed, last, prev, hist, d2>>
@@ -211,6 +215,12 @@ WillNext == steps < MaxSteps /\
   \/ \E how \in {"disconnect", "cut", "bad"} : End(c1, how)
   \/ Subscribe(c1, 1, << <<<<"v">>, 1>> >>)
 WillSpec == WillInit /\ [][WillNext]_vars
+\* the same with a DISCONNECT whose bytes reach the broker together with the end of the stream
+WillEofNext == steps < MaxSteps /\
+  \/ \E cl \in BOOLEAN, w \in {NoWill, W1, W2} : Connect(c1, k1, cl, w)
+  \/ \E how \in {"disconnect-eof", "cut"} : End(c1, how)
+  \/ Subscribe(c1, 1, << <<<<"v">>, 1>> >>)
+WillEofSpec == WillInit /\ [][WillEofNext]_vars
 
 (* C10 sessions: clean / persistent connects on two client ids over three slots          *)
 ENames == {<<"a">>, <<"b">>}
@@ -242,6 +252,9 @@ Sess1Mut == \/ \E cl \in BOOLEAN : Connect(c1, k1, cl, NoWill)
             \/ Subscribe(c1, 1, << <<<<"a","#","x">>, 0>>, <<<<"a">>, 0>>, <<<<"b">>, 1>> >>)
             \/ Unsubscribe(c1, 2, << <<"a">> >>)
             \/ \E how \in {"disconnect", "cut"} : End(c1, how)
+            \* somebody starts to resume the session on another connection and gives up before the CONNACK can be
+            \* written (no connection comes into being): the stored session stays as it is
+            \/ ((\A d \in Conns : Up(d) => conn[d].cid # k1) /\ sess[k1].ex /\ Refuse(c2, "abort-k1-keep", ""))
 Sess1LastNext == steps < MaxSteps /\ IF steps < MaxSteps - 1 THEN Sess1Mut ELSE \E t \in ENames : ApiPublish(t, 1, FALSE, "x")
 Sess1LastSpec == SessInit /\ [][Sess1LastNext]_vars
 
@@ -249,7 +262,8 @@ Sess1LastSpec == SessInit /\ [][Sess1LastNext]_vars
    witness c2 subscribed to '#', afterwards a probe of the retained store                  *)
 ANames == {<<"a">>}
 RefuseKinds == {"level", "name", "idlong", "idbad", "idempty0", "reserved", "willflags", "notconnect-ping",
-                "notconnect-sub", "notconnect-pub", "truncated", "truncated2", "garbage", "badflags"}
+                "notconnect-sub", "notconnect-pub", "truncated", "truncated2", "garbage", "badflags",
+                "v3-truncated10", "v3-truncated11"}
 AdmitInit == Witness(ANames, c2, k2, {<<"#">>}, 1)
 AdmitNext == steps < MaxSteps /\
   \/ \E kind \in RefuseKinds, follow \in {"", "a"} : Refuse(c1, kind, follow)
